@@ -51,6 +51,8 @@ func builtinNumberValueOf(call FunctionCall) Value {
 }
 
 func builtinNumberToFixed(call FunctionCall) Value {
+	// 15.7.4: not generic - a TypeError unless the this value is a Number or a Number object.
+	call.thisClassObject(classNumberName)
 	precision := toIntegerFloat(call.Argument(0))
 	if 20 < precision || 0 > precision {
 		panic(call.runtime.panicRangeError("toFixed() precision must be between 0 and 20"))
@@ -90,6 +92,8 @@ func numberToFixed(value float64, digits int) string {
 }
 
 func builtinNumberToExponential(call FunctionCall) Value {
+	// 15.7.4: not generic - a TypeError unless the this value is a Number or a Number object.
+	call.thisClassObject(classNumberName)
 	if call.This.IsNaN() {
 		return stringValue("NaN")
 	}
@@ -112,6 +116,8 @@ func builtinNumberToExponential(call FunctionCall) Value {
 }
 
 func builtinNumberToPrecision(call FunctionCall) Value {
+	// 15.7.4: not generic - a TypeError unless the this value is a Number or a Number object.
+	call.thisClassObject(classNumberName)
 	if call.This.IsNaN() {
 		return stringValue("NaN")
 	}
